@@ -99,11 +99,13 @@ static void do_topo(char *p) {
       } else out("\"\"");
     } else out(",\"xmlret\":-2,\"xml\":\"\"");
     if (synf >= 0) {
-      char sbuf[4096]; int sr;
+      /* one export into a buffer that is large enough for every description the model generates (no retry logic here) */
+      size_t sblen = 1 << 20; char *sbuf = malloc(sblen); int sr;
       sbuf[0] = 0;
-      sr = hwloc_topology_export_synthetic(topo, sbuf, sizeof sbuf, (unsigned long)synf);
-      out(",\"synret\":%d,\"syn\":", sr < 0 ? -1 : 0); out_jstr(sr < 0 ? "" : sbuf);
-    } else out(",\"synret\":-2,\"syn\":\"\"");
+      sr = hwloc_topology_export_synthetic(topo, sbuf, sblen, (unsigned long)synf);
+      out(",\"synret\":%d,\"synlen\":%d,\"syn\":", sr < 0 ? -1 : 0, sr); out_jstr(sr < 0 ? "" : sbuf);
+      free(sbuf);
+    } else out(",\"synret\":-2,\"synlen\":-1,\"syn\":\"\"");
   }
   out("}"); out_end();
   hwloc_topology_destroy(topo);
